@@ -797,9 +797,10 @@ Definition cli_valid (i : cli_input) : bool := match i with InDoc _ => true | _ 
 Record cli_state := CliState { out_file : option pstr; exit_code : option N }.
 
 (* step 1: parser.parse_args — FileType('r') on in-file, then the out-file argument.
-   eager = true: FileType('w') calls open(..., 'w') here, which creates/truncates the
-   file (the pinned code; T_SchemaTables.cli_output_opened_at_parse is read from the source);
-   eager = false: the output is opened on the first write (proposed fix F14a). *)
+   eager = false (current code, fix F14a): the out-file argument only records the path, the
+   file is opened on the first write;  eager = true (pre-fix): FileType('w') called
+   open(..., 'w') here, creating/truncating the file.  Which one applies is read from the
+   source: T_SchemaTables.cli_output_opened_at_parse. *)
 Definition cli_parse_args (eager : bool) (i : cli_input) (st : cli_state) : cli_state :=
   match i with
   | InUnreadable => CliState (out_file st) (Some 2%N)
